@@ -2,6 +2,7 @@ package main
 
 import (
 	"fmt"
+	"go/token"
 	"go/types"
 	"sort"
 	"strings"
@@ -20,6 +21,7 @@ func init() {
 			"C17.R1 role-pair conflicts on a field: write + concurrent access, no common mutex, not ordered by any of the listed mechanisms",
 			"C17.R2 sibling conflicts inside a multi-instance role: writes to a shared (captured) object or to a non-partitioned field",
 			"C17.R3 after a send of a pointer/slice/map the sending function does not store through it",
+			"C17.R4 a slice stored into a message under construction is not a (re)slice of a slice held in a field of a long-lived object (definite views only)",
 		},
 		Assumptions: []string{
 			"one RPC client: requests are served one at a time (rpc_server.go serves each connection synchronously)",
@@ -57,6 +59,7 @@ func runC17(p *Prog, r *Report) {
 	r.MinInstances["C17.R1"] = 200
 	r.MinInstances["C17.R2"] = 4
 	r.MinInstances["C17.R3"] = 10
+	r.MinInstances["C17.R4"] = 6
 	for _, ro := range e.Roles {
 		var names []string
 		for f := range ro.Reach {
@@ -201,6 +204,7 @@ func runC17(p *Prog, r *Report) {
 		}
 	}
 	c17R3(p, r)
+	c17R4(p, r, e)
 }
 
 func setList(m map[string]bool) []string {
@@ -280,4 +284,183 @@ func reachesValue(addr, v ssa.Value) bool {
 // the ROACH source is not part of its workload.
 func c17OutOfScope(a RAccess) bool {
 	return roleTag(a.Role) == "roach" || sourceTag(a.Fn) == "roach"
+}
+
+// ---- R4: a message does not carry a view of a buffer its sender keeps ----------------------
+
+// c17R4: for every slice stored into a field of a message object under construction (a struct
+// of a type that travels through channels, allocated in the storing function), the slice must
+// not be a view (the slice itself or a reslice) of a slice held in a field of a long-lived
+// object: the receiver reads it while the owner keeps writing the same backing array.  Only
+// definite views are reported; parameters and opaque call results are not.
+func c17R4(p *Prog, r *Report, e *RaceEngine) {
+	type origin int
+	const (
+		unknown origin = iota
+		fresh
+		moved // taken from another message
+		view
+	)
+	var where string
+	var classify func(fn *ssa.Function, v ssa.Value, d int) origin
+	// embeddedInLongLived: fa selects a field of a message-typed struct that is itself an embedded
+	// field of a non-message struct (DataStream embeds DataSegment): that object is not a message.
+	longLived := func(fa *ssa.FieldAddr) bool {
+		owner := ownerName(derefType(fa.X.Type()))
+		if !e.msgTy[owner] {
+			return true
+		}
+		for x := fa.X; ; {
+			in, ok := x.(*ssa.FieldAddr)
+			if !ok {
+				return false
+			}
+			st := derefStruct(in.X.Type())
+			if st != nil && st.Field(in.Field).Embedded() && !e.msgTy[ownerName(derefType(in.X.Type()))] {
+				return true
+			}
+			x = in.X
+		}
+	}
+	classify = func(fn *ssa.Function, v ssa.Value, d int) origin {
+		if d > 8 {
+			return unknown
+		}
+		switch x := v.(type) {
+		case *ssa.MakeSlice:
+			return fresh
+		case *ssa.Const:
+			return fresh
+		case *ssa.Slice:
+			if _, isAlloc := x.X.(*ssa.Alloc); isAlloc {
+				return fresh
+			}
+			return classify(fn, x.X, d+1)
+		case *ssa.Call:
+			if b, ok := x.Call.Value.(*ssa.Builtin); ok && b.Name() == "append" {
+				return classify(fn, x.Call.Args[0], d+1)
+			}
+			return unknown
+		case *ssa.Phi:
+			res := fresh
+			for _, ed := range x.Edges {
+				if ed == v {
+					continue
+				}
+				switch classify(fn, ed, d+1) {
+				case view:
+					return view
+				case unknown:
+					res = unknown
+				case moved:
+					if res == fresh {
+						res = moved
+					}
+				}
+			}
+			return res
+		case *ssa.UnOp:
+			if x.Op != token.MUL {
+				return unknown
+			}
+			switch a := x.X.(type) {
+			case *ssa.FieldAddr:
+				if _, isSlice := derefType(a.Type()).Underlying().(*types.Slice); !isSlice {
+					return unknown
+				}
+				// a field of a struct built in this function: what was stored there
+				if al, ok := addrRoot(a).(*ssa.Alloc); ok {
+					res := unknown
+					for _, ref := range *a.Referrers() {
+						if st, ok := ref.(*ssa.Store); ok && st.Addr == ssa.Value(a) {
+							res = classify(fn, st.Val, d+1)
+						}
+					}
+					if res == unknown {
+						// the local struct is a copy of a long-lived one (stream := dsp.stream): the
+						// slice header is copied, the backing array is still the owner's
+						for _, ref := range *al.Referrers() {
+							st, ok := ref.(*ssa.Store)
+							if !ok || st.Addr != ssa.Value(al) {
+								continue
+							}
+							if ld, ok := st.Val.(*ssa.UnOp); ok && ld.Op == token.MUL {
+								if _, fromAlloc := addrRoot(ld.X).(*ssa.Alloc); !fromAlloc && longLived(a) {
+									stt := derefStruct(a.X.Type())
+									where = "the copy of " + typeName(ld.Type()) + "'s " + stt.Field(a.Field).Name() + " (struct copied at " + p.InstrPos(st) + ")"
+									return view
+								}
+							}
+						}
+					}
+					return res
+				}
+				if longLived(a) {
+					st := derefStruct(a.X.Type())
+					where = ownerName(derefType(a.X.Type())) + "." + st.Field(a.Field).Name() + " (loaded at " + p.InstrPos(x) + ")"
+					return view
+				}
+				return moved
+			case *ssa.IndexAddr:
+				return classify(fn, a.X, d+1) // element of a slice of slices: as its container
+			case *ssa.Alloc:
+				// local variable: single store
+				res := unknown
+				n := 0
+				for _, ref := range *a.Referrers() {
+					if st, ok := ref.(*ssa.Store); ok && st.Addr == ssa.Value(a) {
+						res = classify(fn, st.Val, d+1)
+						n++
+					}
+				}
+				if n == 1 {
+					return res
+				}
+				return unknown
+			}
+		}
+		return unknown
+	}
+	cnt := map[string]int{}
+	for _, fn := range p.LibFuncs() {
+		Instrs(fn, func(in ssa.Instruction) {
+			st, ok := in.(*ssa.Store)
+			if !ok {
+				return
+			}
+			fa, ok := st.Addr.(*ssa.FieldAddr)
+			if !ok {
+				return
+			}
+			if _, isSlice := st.Val.Type().Underlying().(*types.Slice); !isSlice {
+				return
+			}
+			owner := ownerName(derefType(fa.X.Type()))
+			if !e.msgTy[owner] {
+				return
+			}
+			// message under construction: the struct is allocated in this function (directly or as
+			// an element of a slice made here)
+			root := addrRoot(fa)
+			if ia, ok := root.(*ssa.IndexAddr); ok {
+				root = ia.X
+			}
+			switch root.(type) {
+			case *ssa.Alloc, *ssa.MakeSlice:
+			default:
+				return
+			}
+			stt := derefStruct(fa.X.Type())
+			fname := stt.Field(fa.Field).Name()
+			base := fmt.Sprintf("%s.%s filled in %s", owner, fname, FuncName(fn))
+			cnt[base]++
+			r.Fn(FuncName(fn))
+			where = ""
+			o := classify(fn, st.Val, 0)
+			key := fmt.Sprintf("%s #%d", base, cnt[base])
+			names := map[origin]string{unknown: "not a definite view (parameter, call result or unresolved local)", fresh: "freshly allocated", moved: "taken over from another message"}
+			r.Check(o != view, "C17.R4", key, p.InstrPos(st), names[o],
+				"the message carries a view of "+where+", a buffer its long-lived owner keeps writing (trim / append in place): the goroutine that receives the message reads the same backing array without synchronisation")
+		})
+	}
 }
